@@ -237,7 +237,9 @@ def _raw_energy(d):
     A, B, C, w, D = jnp.array(d["A"]), jnp.array(d["B"]), jnp.array(d["C"]), jnp.array(d["w"]), jnp.array(d["D"])
 
     def f(x, p):
-        e = 0.5 * x @ ((A + jnp.diag(p[2])) @ x) + 0.25 * p[3] * jnp.sum(x ** 4) - (B @ p[0]) @ x - (D @ p[2]) @ x
+        e = 0.5 * x @ (A @ x) + 0.25 * p[3] * jnp.sum(x ** 4) - (B @ p[0]) @ x
+        if p[2] is not None:
+            e = e + 0.5 * x @ (jnp.diag(p[2]) @ x) - (D @ p[2]) @ x
         if p[4] is not None:
             e = e - jnp.sin(p[4]) * (w @ x)
         if p[1] is not None:
@@ -263,9 +265,12 @@ def _point_labels(tier):
 
 def _minor_axes(tier):
     """(guess, old, present) label triples: quick = at most one deviation from (zero, same, all); thorough = full."""
-    G, O, P = ("zero", "far"), ("same", "other"), ("all", "bd")
+    # bd = bc + design only; bt = bc + time only (state AND design absent: added after a seeded change whose time-slot
+    # cotangent was guarded by the presence of the design slot went undetected)
+    G, O, P = ("zero", "far"), ("same", "other"), ("all", "bd", "bt")
     if tier == "quick":
-        return [("zero", "same", "all"), ("far", "same", "all"), ("zero", "other", "all"), ("zero", "same", "bd")]
+        return [("zero", "same", "all"), ("far", "same", "all"), ("zero", "other", "all"), ("zero", "same", "bd"),
+                ("zero", "same", "bt")]
     return list(itertools.product(G, O, P))
 
 
@@ -312,6 +317,8 @@ def _run_ift(g, tier, seed, rec):
     def params(p0, p1, p2, c4, p4, present):
         if present == "all":
             return Objective.Params(jnp.array(p0), jnp.array(p1), jnp.array(p2), c4, jnp.array(p4))
+        if present == "bt":
+            return Objective.Params(jnp.array(p0), None, None, c4, jnp.array(p4))
         return Objective.Params(jnp.array(p0), None, jnp.array(p2), c4, None)
 
     base = params(pts[0]["a"], pts[1]["a"], pts[2]["a"], 0.0, pts[4]["a"], "all")
@@ -329,7 +336,11 @@ def _run_ift(g, tier, seed, rec):
                 for gl, ol, pl in _minor_axes(tier):
                     if pl == "bd" and (lab[1] != "a" or lab[3] != "a"):
                         continue            # absent slots: their axis values are irrelevant
+                    if pl == "bt" and (lab[1] != "a" or lab[2] != "a"):
+                        continue
                     for entry in ("ns", "ws"):
+                        if pl == "bt" and entry == "ns":
+                            continue        # nonlinear_solve differentiates w.r.t. the design slot, which is absent here
                         combos.append((lab, c4, pip, gl, ol, pl, entry))
 
     for lab, c4, pip, gl, ol, pl, entry in combos:
@@ -343,6 +354,9 @@ def _run_ift(g, tier, seed, rec):
         p0, p1, p2, p4 = [pts[s][l] for s, l in zip((0, 1, 2, 4), lab)]
         if pl == "bd":
             p1r, p4r = onp.zeros(k1), 0.0          # the absent terms vanish identically
+        elif pl == "bt":
+            p1r, p4r = onp.zeros(k1), p4
+            p2 = onp.zeros(n)
         else:
             p1r, p4r = p1, p4
         P = params(p0, p1, p2, c4, p4, pl)
@@ -434,7 +448,7 @@ def _run_ift(g, tier, seed, rec):
                         rec.case(cid, nontrivial=False, outcome="ok-zero")
                     continue
                 got = ct_p if entry == "ns" else ct_p[s]
-                if entry == "ws" and pl == "bd" and s in (1, 4):
+                if entry == "ws" and s in {"bd": (1, 4), "bt": (1, 2)}.get(pl, ()):
                     if got is not None:
                         _viol(rec, "%s|slot=%d|absent-slot-not-None" % (ename, s), cid, {"observed": repr(got)})
                         rec.case(cid, outcome="violating")
@@ -472,6 +486,37 @@ def _run_ift(g, tier, seed, rec):
                                      if stable_hash(cid) % 400 == 0 else None))
 
 
+        # zero cotangent: the pull-back is linear, so every parameter cotangent must be finite and exactly negligible (a
+        # seeded change that normalised the adjoint load by its norm turned them into NaN; a zero cotangent reaches the rule
+        # whenever an intermediate solution feeds the next load step only as its initial guess)
+        cidz = base_cid + ";slot=all;v=zero"
+        if rec.want(cidz):
+            try:
+                with _quiet(), horizon(HORIZON_S):
+                    ct0 = pull(jnp.zeros(n))
+                leaves = [ct0[0]] + (list(ct0[1]) if entry == "ws" else [ct0[1]])
+                worst, finite = 0.0, True
+                for leaf in leaves:
+                    if leaf is None:
+                        continue
+                    a = onp.asarray(leaf, dtype=float)
+                    finite = finite and bool(onp.all(onp.isfinite(a)))
+                    if a.size and finite:
+                        worst = max(worst, float(onp.max(onp.abs(a))))
+                if not finite or worst > 1e-14:
+                    _viol(rec, "%s|zero-cotangent|%s" % (ename, "nonfinite" if not finite else "nonzero"), cidz,
+                          {"observed": [None if l is None else onp.asarray(l) for l in leaves]})
+                    rec.case(cidz, outcome="violating")
+                else:
+                    rec.branch("zero-cotangent:ok")
+                    rec.case(cidz, nontrivial=False, outcome="ok-zero-cotangent")
+            except HorizonExceeded:
+                rec.noverdict(cidz, "horizon")
+            except Exception as e:  # noqa
+                sig, where = _lib_exc(e)
+                _viol(rec, "%s|reverse-rule|%s" % (ename, sig), cidz, {"error": repr(e)[:400], "where": where, "cotangent": "zero"})
+                rec.case(cidz, outcome="exception-reverse")
+
         # jax.grad of a generic linear functional r.x*(p) (a non-basis cotangent through the other public transformation)
         if lab == "aaaa" and gl == "zero" and ol == "same":
             r = onp.cos(0.7 * onp.arange(n) + 0.3)
@@ -502,7 +547,7 @@ def _run_ift(g, tier, seed, rec):
                     if not rec.want(cid):
                         continue
                     got = gr if entry == "ns" else gr[s]
-                    if entry == "ws" and pl == "bd" and s in (1, 4):
+                    if entry == "ws" and s in {"bd": (1, 4), "bt": (1, 2)}.get(pl, ()):
                         if got is not None:
                             _viol(rec, "%s|slot=%d|absent-slot-not-None" % (ename, s), cid, {"observed": repr(got)})
                         rec.case(cid, nontrivial=False, outcome="ok-absent" if got is None else "violating")
